@@ -69,6 +69,8 @@ func NewContainsPointQuery(index *ShapeIndex, model VertexModel) *ContainsPointQ
 // Contains reports whether any shape in the queries index contains the point p
 // under the queries vertex model (Open, SemiOpen, or Closed).
 func (q *ContainsPointQuery) Contains(p Point) bool {
+	// Shapes may have been added to the index since this query was created.
+	q.index.maybeApplyUpdates()
 	if !q.iter.LocatePoint(p) {
 		return false
 	}
@@ -140,6 +142,8 @@ func (q *ContainsPointQuery) shapeContains(clipped *clippedShape, center, p Poin
 //
 // This requires the shape belongs to this queries index.
 func (q *ContainsPointQuery) ShapeContains(shape Shape, p Point) bool {
+	// Shapes may have been added to the index since this query was created.
+	q.index.maybeApplyUpdates()
 	if !q.iter.LocatePoint(p) {
 		return false
 	}
@@ -161,6 +165,9 @@ type shapeVisitorFunc func(shape Shape) bool
 func (q *ContainsPointQuery) visitContainingShapes(p Point, f shapeVisitorFunc) bool {
 	// This function returns false only if the algorithm terminates early
 	// because the visitor function returned false.
+	//
+	// Shapes may have been added to the index since this query was created.
+	q.index.maybeApplyUpdates()
 	if !q.iter.LocatePoint(p) {
 		return true
 	}
